@@ -28,7 +28,10 @@ EXPLANATION = (
     "construct: the closure of setup_for_episode (reachable from reset but not from the constructor) performs no "
     "power-state transition (power_on / power_off / reset) - only clearing of counters/caches, log-handle set-up and "
     "idempotent re-assertions (enable/start/run, which refuse on a node that is not ON); plus the dynamic-feature census "
-    "(setattr/exec/__dict__) that the who-may-write rules of all properties rely on. NOT decided: equality of "
+    "(setattr/exec/__dict__) that the who-may-write rules of all properties rely on; R4.1 also lists memoising decorators "
+    "(lru_cache / cache keep objects for the whole process; cached_property is per instance); R4.6 = C01's R1.4 and C03's R3.4 "
+    "(reset re-seeds when a seed is given - `is not None`, not truthiness - and rebuilds the game exactly once on every path) "
+    "applied here. NOT decided: equality of "
     "trajectories after a dirty history (behavioural) and leaks through third-party global state."
 )
 TECHNIQUE = "static: who-may-write inventory of class-level/singleton state, output-switch guard analysis, mutable-default analysis, dynamic-feature census"
@@ -136,6 +139,22 @@ def r4_1(ctx: Ctx) -> None:
                     why = f"`{unparse(node)}` in {owner}: process-wide generator state written outside set_random_seed"
                 ctx.record("R4.1", f"{path}::{owner}::seeds {unparse(node.func)}", f"{path}:{node.lineno}", ok, why)
     ctx.floor("R4.1", "global generator seeding sites", n_seed, 2)
+    # memoising decorators keep their results for the life of the process: a cached *object* (a rule, a component, a parsed
+    # scenario) is then shared by every episode and every environment.  cached_property is per instance and is fine.
+    n_dec = 0
+    for fn in ix.functions:
+        if isinstance(fn.node, ast.Lambda):
+            continue
+        for d in getattr(fn.node, "decorator_list", []):
+            t = unparse(d.func if isinstance(d, ast.Call) else d)
+            if t.split(".")[-1] in ("lru_cache", "cache", "cached_property", "singledispatch"):
+                n_dec += 1
+                ok = t.split(".")[-1] in ("cached_property", "singledispatch")
+                ctx.record("R4.1", ctx.key(fn, f"@{t} keeps no object across episodes"), fn.loc(d), ok,
+                           "per-instance cache" if ok else
+                           f"@{t} memoises {fn.short} for the whole process: whatever it returns (and that object's counters / state) is shared "
+                           "by every episode and every environment built afterwards")
+    ctx.count("R4.1:memoising decorators", n_dec)
     census = {(p, t) for p, _, t in dynamic_feature_census(ix)}
     extra = census - DYNAMIC_CENSUS_EXPECTED
     ctx.record("R4.1", "src/primaite::<package>::dynamic-feature census (setattr / delattr / exec / eval / globals / __dict__)", "", not extra,
@@ -336,9 +355,20 @@ def r4_5(ctx: Ctx) -> None:
     ctx.note(f"R4.5: PrimaiteGymEnv.__init__ calls setup_for_episode: {called} (reset does); the rule therefore requires the closure to be idempotent with respect to construction")
 
 
+def r4_6(ctx: Ctx) -> None:
+    """A reset behaves like a fresh environment only if it really rebuilds and re-seeds: C01's R1.4 (reset: reseed if a seed is given,
+    rebuild the game from the scheduler's config exactly once on every path, then set-up) and C03's R3.4 (seeding discipline)."""
+    from . import c01, c03
+    with ctx.borrowed({"R1.4": "R4.6"}):
+        c01.r1_4(ctx)
+    with ctx.borrowed({"R3.4": "R4.6"}):
+        c03.r3_4(ctx)
+
+
 def check(ctx: Ctx) -> None:
     r4_1(ctx)
     r4_2(ctx)
     r4_3(ctx)
     r4_4(ctx)
     r4_5(ctx)
+    r4_6(ctx)
